@@ -56,6 +56,44 @@ def _cell_violations(w, where):
     return out
 
 
+def _published_violations(w, where):
+    """The statement on what the master PUBLISHED (observe_at: /placement/<server>/<instance> nodes vs /servers/<server>
+    and /scheduled/<instance>): after a cycle the instances recorded under a server fit its declared capacity and no
+    instance is recorded under two servers. Records the master could not have reconciled are left out: a server that is
+    being deleted behind the master's back, entries the delete API removed or left behind (C09's attributions)."""
+    from .. import emaster
+    out = []
+    if where != 'after-cycle' or w.pending_deletes:
+        return out
+    ent = emaster.placement_entries(w.b.d)
+    cell = w.m.cell
+    by_app = {}
+    by_srv = {}
+    for (s, a) in ent:
+        if s not in w.m.servers or a not in cell.apps or (s, a) in w.left_behind or (s, a) in w.api_deleted:
+            continue
+        by_app.setdefault(a, []).append(s)
+        by_srv.setdefault(s, []).append(a)
+    for a, ss in by_app.items():
+        if len(ss) > 1:
+            out.append(('published-on-two-servers', '%s: %s is recorded under %s' % (where, a, sorted(ss))))
+    for s, apps in by_srv.items():
+        rec = w.b.d.get('/servers/' + s)
+        rec = rec[0] if isinstance(rec, tuple) else rec
+        if not (isinstance(rec, dict) and 'memory' in rec):
+            continue
+        declared = [float(str(rec['memory']).rstrip('M')), float(str(rec['cpu']).rstrip('%')),
+                    float(str(rec['disk']).rstrip('M'))]
+        tot = [0.0, 0.0, 0.0]
+        for a in apps:
+            tot = [t + float(d) for t, d in zip(tot, cell.apps[a].demand)]
+        if any(t > c for t, c in zip(tot, declared)):
+            out.append(('published-oversubscribed',
+                        '%s: the instances recorded under /placement/%s (%s) demand %r, its record declares %r'
+                        % (where, s, ', '.join(sorted(apps)), tot, declared)))
+    return out
+
+
 def loader_stage(r, seed, n):
     from .. import emaster
     rng = random.Random(seed + 7)
@@ -67,6 +105,7 @@ def loader_stage(r, seed, n):
 
         def hook(w, where, hits=hits):
             hits.extend(_cell_violations(w, where))
+            hits.extend(_published_violations(w, where))
         try:
             res = emaster.run_history(case, crash_points=False, want=(), cell_hook=hook)
             cycles += res.get('stats', {}).get('cycles', 0) if isinstance(res, dict) else 0
@@ -114,6 +153,7 @@ def replay_case(case):
     if isinstance(case, dict) and case.get('engine') == 'E-master':
         from .. import emaster
         hits = []
-        emaster.run_history(case['case'], crash_points=False, want=(), cell_hook=lambda w, where: hits.extend(_cell_violations(w, where)))
+        emaster.run_history(case['case'], crash_points=False, want=(),
+                            cell_hook=lambda w, where: hits.extend(_cell_violations(w, where) + _published_violations(w, where)))
         return hits[0] if hits else None
     return E.replay(PID, case)
